@@ -1,9 +1,38 @@
 #!/bin/sh
-# Must-fail corpus: applies each /verif/selftest/<prop>__<name>.patch to /repo's working tree,
-# runs the property's quick check, expects exit 1, and restores the tree.
+# Must-fail corpus: applies each /verif/selftest/<prop>__<name>.patch to a tree,
+# runs the property's quick check on it, expects exit 1, and restores the tree.
 # usage: tools/selftest.sh [pattern]
+# By default the tree is /repo's working tree.  With SELFTEST_SCRATCH=1 the corpus runs on
+# a scratch copy of /repo's working tree under /tmp (removed afterwards; REPO_DIR points the
+# engine at it), so that /repo can be edited meanwhile; JOBS=n runs n patches in parallel,
+# each on its own copy.
 cd "$(dirname "$0")/.."
 pat="${1:-}"
+if [ -n "${SELFTEST_SCRATCH:-}" ]; then
+  jobs="${JOBS:-1}"
+  ls "$PWD"/selftest/*${pat}*.patch 2>/dev/null > /tmp/selftest.list.$$
+  split -n "r/$jobs" /tmp/selftest.list.$$ /tmp/selftest.part.$$.
+  for part in /tmp/selftest.part.$$.*; do
+    (
+      tree=$(mktemp -d /tmp/selftest.tree.XXXXXX)
+      rsync -a --exclude .git /repo/ "$tree"/
+      (cd "$tree" && git init -q . && git add -A >/dev/null 2>&1 && git -c user.email=x -c user.name=x commit -qm base >/dev/null 2>&1)
+      while read -r p; do
+        prop=$(basename "$p" | sed 's/__.*//')
+        if ! git -C "$tree" apply --check "$p" 2>/dev/null; then echo "SKIP  $p (does not apply)"; continue; fi
+        git -C "$tree" apply "$p"
+        out=$(REPO_DIR="$tree" VERIF_NO_EVIDENCE=1 ./check "$prop" 2>&1); rc=$?
+        git -C "$tree" apply -R "$p"
+        if [ $rc -eq 1 ]; then echo "KILLED   $p  by: $(echo "$out" | grep -o 'obligation=[^ ]*\|replay=[^ ]*' | head -2 | tr '\n' ' ')";
+        else echo "SURVIVED $p (rc=$rc)"; fi
+      done < "$part"
+      rm -rf "$tree" "$part"
+    ) &
+  done
+  wait
+  rm -f /tmp/selftest.list.$$
+  exit 0
+fi
 ok=0; bad=0
 for p in "$PWD"/selftest/*${pat}*.patch; do
   [ -f "$p" ] || continue
